@@ -782,6 +782,49 @@ def check_alias(program, rep, prefix='C09'):
     rep.floor(f'{prefix}.alias', 'tables of the processor', n, 4)
 
 
+def check_promise_returned(program, rep):
+    """The promise start() hands out is the one filed for the generator (it
+    is the object process() fills with the coroutine's return value)."""
+    cp = program.cls('CoroutineProcessor')
+    f = program.method('CoroutineProcessor', 'start')
+    g = f.params()[1]
+
+    class _PD(Domain):
+        def resolve_call(self, st, call, walker):
+            r = walker.resolve_helper(st, call)
+            return r
+
+        def for_counts(self, st, node, itersym):
+            return [0, 1]
+    exits = Walker(program, _PD(program)).run(f, cp)
+    n = 0
+    bad = None
+    for ex in exits:
+        if ex.kind != 'return' or ex.payload is None:
+            continue
+        n += 1
+        v = ex.payload.text
+        filed = [e for e in ex.state.trace if e.kind == 'store'
+                 and e.target is not None
+                 and e.target.text == f'{P}[{g}]']
+        if v == f'{P}[{g}]':
+            continue
+        if not filed or filed[-1].sym.text != v:
+            bad = bad or ex.node
+    if n == 0:
+        rep.inconclusive('C09.promise', f.where, f.node.name,
+                         'start() has no returning path')
+        return
+    rep.check(bad is None, 'C09.promise', f.where,
+              bad if bad is not None else f'{P}[{g}] = promise',
+              f'on all {n} returning paths the returned promise is the one '
+              'filed for the generator',
+              'start() returns a promise that is not filed in _promises for '
+              'the generator on this path (e.g. when it revokes a pending '
+              'kill): the promise never receives the value the coroutine '
+              'returns', line=getattr(bad, 'lineno', f.node.lineno))
+
+
 def check_strong_and_resume(program, rep):
     mod = program.cls('CoroutineProcessor').module
     site = mod.relpath
@@ -829,6 +872,7 @@ def run(program, rep, tier):
     run_methods(program, rep)
     run_process(program, rep)
     check_alias(program, rep)
+    check_promise_returned(program, rep)
     check_strong_and_resume(program, rep)
     # PAUSED exactly for positive waits: the sleep test of process() (C08)
     import copy
